@@ -37,6 +37,8 @@ import numpy as np
 __author__ = "Richard Gast"
 __status__ = "development"
 
+from ..base.base_funcs import _interp_rows
+
 # function definitions
 ######################
 
@@ -61,6 +63,15 @@ def interp(x_new, x, y):
 wsum = """
 def wsum(weight, coupling):
     return einsum('ij,ij->i', weight, coupling)
+"""
+
+# linear interpolation of a multi-column input (one column per unit) at time t, clamped at both ends like numpy.interp
+interp_rows = """
+def interp_rows(t, time, inp):
+    t = as_tensor(t, dtype=time.dtype)
+    i = int(clamp(searchsorted(time, t, right=True) - 1, 0, len(time) - 2))
+    a = clamp((t - time[i]) / (time[i + 1] - time[i]), 0.0, 1.0)
+    return inp[i] + a * (inp[i + 1] - inp[i])
 """
 
 # element-wise maximum / minimum: torch.maximum/minimum only accept tensors, whereas model equations may compare a variable
@@ -102,6 +113,8 @@ torch_funcs = {
     'exp': {'call': 'exp', 'func': np.exp, 'imports': ['torch.exp']},
     'sigmoid': {'call': 'sigmoid', 'func': sigmoid, 'imports': ['torch.sigmoid']},
     'interp': {'call': 'interp', 'func': np.interp, 'def': interp, 'imports': ['torch.abs', 'torch.argmin']},
+    'interp_rows': {'call': 'interp_rows', 'func': _interp_rows, 'def': interp_rows,
+                    'imports': ['torch.as_tensor', 'torch.clamp', 'torch.searchsorted']},
     'wsum':   {'call': 'wsum',   'def': wsum, 'imports': ['torch.einsum']},
     'real': {'call': 'real', 'func': np.real, 'imports': ['torch.real']},
     'imag': {'call': 'imag', 'func': np.imag, 'imports': ['torch.imag']},
